@@ -287,12 +287,21 @@ def landing_cases(c):
     (d - k weeks and d - 7k days from the same start)."""
     r = c.rng
     cases, wk, dy = [], [], []
-    def emit(lst, fam, start, steps, proj=0):
+    # stepping is O(days): expensive cases (long routes to years < 1000, big offsets) share a budget of model/impl day-steps;
+    # the landing dates are visited in random order so that the budget is spent on different ones in different runs
+    budget = [1.2e8 if c.tier == 'quick' else 4e9]
+    def emit(lst, fam, start, steps, proj=0, force=False):
         if not (RD_MIN <= rd(*start) <= RD_MAX) or start[0] > I32_MAX: return False
         l, pre = route_to(start)
-        if pre and pre[0][2] > 3 * 10 ** 6: return False       # keep the stepping cheap
+        cost = sum(st[-1] * (7 if st[0] == 'sub' and st[1] == 'week' else 1) for st in pre + steps if st[0] == 'add' or st[1] in ('day', 'week'))
+        if cost > 3 * 10 ** 6: return False
+        if cost > 5000 and not force:
+            if budget[0] < cost: return False
+            budget[0] -= cost
         lst.append((fam, lit_canon(*l), l, pre + steps, proj)); return True
-    for T in landing_dates():
+    targets = landing_dates()
+    r.shuffle(targets)
+    for T in targets:
         t = rd(*T)
         proj = r.choice([0, 0, 0, 1])
         # + k days / - k days landing on T
@@ -304,7 +313,7 @@ def landing_cases(c):
             if t + 7 * k <= RD_MAX:
                 S = of_rd(t + 7 * k)
                 if emit(wk, 'land-sub-weeks', S, [('sub', 'week', k)], 0):
-                    emit(dy, 'land-sub-7k-days', S, [('sub', 'day', 7 * k)], 0)
+                    emit(dy, 'land-sub-7k-days', S, [('sub', 'day', 7 * k)], 0, force=True)
         # - k months landing in T's month with T's day of month (start must have that day)
         a, m, d = T
         idx = 12 * (a - 1) + (m - 1)
@@ -330,9 +339,9 @@ def landing_cases(c):
 
 def run_landing(c, ck=True, profile='debug', tag=''):
     cases, wk, dy = landing_cases(c)
-    run_calc_cases(c, cases, ck=ck, profile=profile, tag=tag)
-    ew, iw = run_calc_cases(c, wk, ck=ck, profile=profile, tag=tag)
-    ed, idy = run_calc_cases(c, dy, ck=ck, profile=profile, tag=tag)
+    exprs, impl = run_calc_cases(c, cases + wk + dy, ck=ck, profile=profile, tag=tag)
+    n0, n1 = len(cases), len(cases) + len(wk)
+    ew, iw, ed, idy = exprs[n0:n1], impl[n0:n1], exprs[n1:], impl[n1:]
     # the cross-operation law d - k weeks = d - 7k days, on the implementation alone
     for a, b, oa, ob in zip(ew, ed, iw, idy):
         c.note_case(tag + 'law:' + a, True, 'law-weeks-eq-7k-days')
@@ -460,7 +469,7 @@ def model_calc(o):
 
 # ---------------------------------------------------------------------------
 
-def run_calc_cases(c, cases, ck=True, profile='debug', tag=''):
+def run_calc_cases(c, cases, ck=True, profile='debug', tag='', cross_rd=False):
     """the three-way comparison for (family, literal text, literal|None, steps, proj) cases"""
     r = c.rng
     exprs, mlines = [], []
@@ -521,7 +530,7 @@ def run_calc_cases(c, cases, ck=True, profile='debug', tag=''):
             rdq.append(sx([Sym('rd'), astro(l[0]), l[1], l[2]])); rdq.append(sx([Sym('rd'), ps[1], ps[2], ps[3]]))
             rdq_idx.append((i, ps, delta if only_days else None))
     if rdq:
-        ans = c.model('date', rdq)
+        ans = c.model('date', rdq, cross=cross_rd)
         for j, (i, ps, delta) in enumerate(rdq_idx):
             a0 = try_parse(ans[2 * j]); a1 = try_parse(ans[2 * j + 1])
             ok = isinstance(a0, list) and isinstance(a1, list) and a1[1] == 1 and a1[2] == ps[0] and (delta is None or a1[0] - a0[0] == delta)
@@ -694,13 +703,13 @@ def check(c):
     r = c.rng
     # 1. boundary corpus (always first)
     b = boundary_cases()
-    exprs, impl = run_calc_cases(c, b)
+    exprs, impl = run_calc_cases(c, b, cross_rd=True)
     c.sample({'expr': exprs[60], 'impl': impl_eval(impl[60])[1]})
     run_operand_errors(c)
     # 1b. target-directed: every operation made to land on every boundary day
     c.extra['landing_cases'] = run_landing(c)
     # 2. random calculations
-    rc = random_cases(c, 2500 if quick else 40000)
+    rc = random_cases(c, 2000 if quick else 40000)
     exprs, impl = run_calc_cases(c, rc)
     for k in (1, 2, 3):
         c.sample({'expr': exprs[k], 'impl': impl_eval(impl[k])[1]})
